@@ -134,6 +134,14 @@ func c02(o Opts) error {
 		}
 	}
 
+	// several texts read through one shared type context (two inputs of one query),
+	// and a context owner that re-binds type names between reads
+	var namedVals []zed.Value
+	for _, i := range namedIdx {
+		namedVals = append(namedVals, pool[i].v)
+	}
+	c02Shared(o, NewRng(scramble(o.Seed)+99), res, zctx, namedVals)
+
 	// long streams: the lexer's own buffer refills inside characters and tokens
 	c02Long(o, rng, res)
 
